@@ -73,6 +73,11 @@ class Gen:
                 prog["lets"].append([nm, v])
         n = cfg["n"]
         rname = "q"
+        if t.chance(0.15):
+            free = [x for x in NAMES if x not in used]
+            if free:
+                rname = t.choice(free)
+        self.rname = rname
         size = n
         cands = [k for k, v in self.lets.items() if isinstance(v, int) and 1 <= v <= 4]
         if cands and t.chance(cfg["p_letsize"]):
@@ -172,7 +177,7 @@ class Gen:
         if avail is not None:
             cands = [c for c in cands if c[1] in avail]
         # weight aliases / direct per swarm
-        direct = [c for c in cands if c[0][0] == "item" and c[0][1] == "q" and isinstance(c[0][2], int)]
+        direct = [c for c in cands if c[0][0] == "item" and c[0][1] == self.rname and isinstance(c[0][2], int)]
         fancy = [c for c in cands if c not in direct]
         chosen, keys = [], set()
         for _ in range(k):
@@ -470,11 +475,15 @@ class Gen:
         t, cfg = self.t, self.cfg
         name = "m%d" % idx
         nparams = t.choice([0, 1, 1, 2, 2, 3])
-        pool = PARAM_NAMES if t.chance(cfg["p_shadow"]) else [p for p in PARAM_NAMES if p not in self.used_names] or PARAM_NAMES
+        pool = (PARAM_NAMES + [self.rname] * 2) if t.chance(cfg["p_shadow"]) else [p for p in PARAM_NAMES if p not in self.used_names] or PARAM_NAMES
+        pool = list(dict.fromkeys(pool)) if not t.chance(0.5) else pool
         pnames = t.sample(pool, min(nparams, len(pool)))
+        pnames = list(dict.fromkeys(pnames))
         info = {}
         for p in pnames:
             kd = t.weighted([("q", 5), ("f", 3), ("i", 1.5), ("c", 1.5), ("r", 1)])
+            if p in self.regs and t.chance(0.7):
+                kd = "r"  # a parameter shadowing a register name, used as a register
             info[p] = {"kind": kd}
             if kd == "r":
                 info[p]["minsize"] = t.randint(1, 2)
@@ -550,6 +559,27 @@ class Gen:
                 prog = cand
             except Invalid:
                 pass
+        # textual twins: a gate statement of a macro body repeated verbatim in the main body
+        # (same text, other scope: identifiers may denote different things there)
+        if self.exec and prog["macros"] and t.chance(0.3):
+            for _ in range(2):
+                m = t.choice(prog["macros"])
+                gates = [x for x in m["body"]["body"] if x["k"] == "gate" and x["name"] not in ("prepare_all", "measure_all")]
+                if not gates:
+                    continue
+                g = copy.deepcopy(t.choice(gates))
+                cand = copy.deepcopy(prog)
+                subs = [x for x in cand["body"] if x["k"] == "sub"]
+                if subs and t.chance(0.6):
+                    tgt = t.choice(subs)
+                    tgt["body"].insert(t.randrange(len(tgt["body"]) + 1), g)
+                else:
+                    cand["body"].append({"k": "sub", "count": None, "body": [g]})
+                try:
+                    resolve(cand, None, executable=True)
+                    prog = cand
+                except Invalid:
+                    pass
         if self.exec and not prog["body"]:
             prog["body"] = [{"k": "sub", "count": None, "body": []}]
         # overrides
